@@ -116,6 +116,12 @@ func SetPendingValidators(store sdk.KVStore, cdc codec.BinaryCodec, validators [
 		Validators: validators,
 	}
 	bz := cdc.MustMarshal(&validatorSet)
+	if len(bz) == 0 {
+		// the empty set marshals to no bytes, and a metadata entry with an empty value is rejected by the
+		// genesis validation; GetPendingValidators reads a missing entry as the empty set
+		store.Delete([]byte(PrefixPendingValidators))
+		return
+	}
 	store.Set([]byte(PrefixPendingValidators), bz)
 }
 
